@@ -25,7 +25,7 @@ MO = [ren('std::memory_order_relaxed', 'memory_order_relaxed', 0), ren('std::mem
       ren('std::memory_order_release', 'memory_order_release', 0), ren('std::memory_order_acq_rel', 'memory_order_acq_rel', 0),
       ren('std::memory_order_seq_cst', 'memory_order_seq_cst', 0)]
 RD = '__CPROVER_assigns(self->_lock.v, g_last_read, g_last_load_order)'
-GHOSTS = 'g_lin_count, g_lin_old, g_lin_new, g_last_read, g_last_load_order, g_held, g_acq_ok, g_rel_ok, g_bad_write'
+GHOSTS = 'g_lin_count, g_lin_old, g_lin_new, g_last_read, g_last_load_order, g_last_write_order, g_held, g_acq_ok, g_rel_ok, g_bad_write'
 
 # ---------------------------------------------------------------------------
 SLP = '''
@@ -36,7 +36,7 @@ struct SimpleLock { gv_atomic _lock; };
 static inline void asmPause(void) {}
 static inline bool sl_cas_weak(gv_atomic* a, int* e, int d, memory_order s, memory_order f)
 { uint64_t ex = (uint64_t)(unsigned)*e; bool r = gv_cas(a, &ex, (uint64_t)(unsigned)d, s, f, 1); *e = (int)ex; return r; }
-#define SL_FRESH(l) __CPROVER_is_fresh(l, sizeof(*(l)))
+#define SL_FRESH(l) (__CPROVER_is_fresh(l, sizeof(*(l))) && (l)->_lock.v <= GV_WIDTH_MASK)
 '''
 SL_LOWER = MO + [rx(r'(?<![\w.>])_lock\.load\(', '(int)gv_load(&self->_lock, ', 0),
                  rx(r'(?<![\w.>])_lock\.store\(', 'gv_store(&self->_lock, ', 0),
@@ -53,7 +53,7 @@ def SLU(name, src, anchor, proto, contract, says, uses=(), loops=None, within=No
 
 
 SLU('SimpleLock_is_locked', SL_H, r'inline bool is_locked\(\) const', 'bool SimpleLock_is_locked(const struct SimpleLock* self)',
-    '__CPROVER_requires(SL_FRESH(self) && (g_held ==> (self->_lock.v & 1) == 1))\n__CPROVER_ensures(__CPROVER_return_value == ((g_last_read & 1) != 0) && g_last_load_order == memory_order_acquire && (g_held ==> __CPROVER_return_value))\n%s' % RD,
+    '__CPROVER_requires(SL_FRESH(self) && (g_held ==> (self->_lock.v & 1) == 1))\n__CPROVER_ensures(__CPROVER_return_value == ((g_last_read & 1) != 0) && g_last_load_order == memory_order_acquire && (g_held ==> (__CPROVER_return_value && self->_lock.v == __CPROVER_old(self->_lock.v))))\n%s' % RD,
     'is_locked() reads the word with acquire order, writes nothing, and is true whenever the caller holds the lock', within=r'class SimpleLock\b')
 SLU('SimpleLock_slow_lock', SL_C, r'void galois::substrate::SimpleLock::slow_lock\(\) const', 'void SimpleLock_slow_lock(const struct SimpleLock* self)',
     '__CPROVER_requires(SL_FRESH(self) && !g_held && !g_bad_write)\n' + LOCK_POST + '\n' + ASG,
@@ -94,15 +94,19 @@ def PLU(name, anchor, proto, contract, says, uses=(), loops=None, src=PL_H, with
 
 
 PLU('PtrLock_is_locked', r'inline bool is_locked\(\) const', 'bool PtrLock_is_locked(const struct PtrLock* self)',
-    '__CPROVER_requires(PL_FRESH(self) && (g_held ==> (self->_lock.v & 1) == 1))\n__CPROVER_ensures(__CPROVER_return_value == ((g_last_read & 1) != 0) && g_last_load_order == memory_order_acquire && (g_held ==> __CPROVER_return_value))\n%s' % RD,
+    '__CPROVER_requires(PL_FRESH(self) && (g_held ==> (self->_lock.v & 1) == 1))\n__CPROVER_ensures(__CPROVER_return_value == ((g_last_read & 1) != 0) && g_last_load_order == memory_order_acquire && (g_held ==> (__CPROVER_return_value && self->_lock.v == __CPROVER_old(self->_lock.v))))\n%s' % RD,
     'is_locked() reads with acquire order and writes nothing')
-PLU('ptr_slow_lock', r'void galois::substrate::internal::ptr_slow_lock\(std::atomic<uintptr_t>& _l\)', 'void ptr_slow_lock(gv_atomic* _l)',
-    '__CPROVER_requires(__CPROVER_is_fresh(_l, sizeof(*_l)) && !g_held && !g_bad_write)\n' + LOCK_POST + '\n__CPROVER_assigns(_l->v, %s)' % GHOSTS,
-    'ptr_slow_lock returns only when this call\'s fetch_or (acquire RMW) observed the bit clear; a fetch_or on a locked word does not change it; pointer bits preserved',
-    src=PL_C, within=None,
-    extra=[rx(r'(?<![\w.>])_l\.load\(', 'gv_load(_l, ', 1, 1), rx(r'(?<![\w.>])_l\.fetch_or\(', 'gv_fetch_or(_l, ', 1, 1), rx(r'assert\(_l\);', 'assert(gv_load(_l, memory_order_seq_cst) != 0);', 1, 1)],
-    loops={1: '__CPROVER_assigns(oldval, _l->v, %s)\n__CPROVER_loop_invariant(!g_held && !g_bad_write)' % GHOSTS,
-           2: '__CPROVER_assigns(_l->v, %s)\n__CPROVER_loop_invariant(!g_held && !g_bad_write)' % GHOSTS})
+# ptr_slow_lock: goto-instrument 6.11 does not attach the loop contract to this do { while(..); } while (oldval & 1)
+# loop ("loop ... does not have a contract, skipping"), so it cannot be closed by an invariant here.  BOUNDED stand-in:
+# every path with at most 3 iterations of each spin loop (each iteration starts from the same abstract state: the
+# environment re-chooses the word before every atomic step, and the ghost state is unchanged while the lock is not taken).
+UNITS.append(Unit(
+    name='ptr_slow_lock', kind='bounded', unwind=4, partial=True, bound_desc='paths with <= 3 iterations of each of the two spin loops (longer spins are cut, not asserted)',
+    src=PL_C, anchor=r'void galois::substrate::internal::ptr_slow_lock\(std::atomic<uintptr_t>& _l\)', proto='void ptr_slow_lock(gv_atomic* _l)',
+    contract='__CPROVER_requires(__CPROVER_is_fresh(_l, sizeof(*_l)) && !g_held && !g_bad_write)\n' + LOCK_POST + '\n__CPROVER_assigns(_l->v, %s)' % GHOSTS,
+    prelude=[PLP], no_flags=['--conversion-check'],
+    lower=PL_LOWER + [rx(r'(?<![\w.>])_l\.load\(', 'gv_load(_l, ', 1, 1), rx(r'(?<![\w.>])_l\.fetch_or\(', 'gv_fetch_or(_l, ', 1, 1), rx(r'assert\(_l\);', 'assert(gv_load(_l, memory_order_seq_cst) != 0);', 1, 1)],
+    says='BOUNDED: ptr_slow_lock returns only when this call\'s fetch_or (acquire RMW) observed the bit clear; a fetch_or on a locked word does not change it; pointer bits preserved'))
 PLU('PtrLock_lock', r'inline void lock\(\)', 'void PtrLock_lock(struct PtrLock* self)',
     '__CPROVER_requires(PL_FRESH(self) && !g_held && !g_bad_write)\n' + LOCK_POST + '\n' + PASG,
     'lock(): caller holds the lock on return, taken by an acquire RMW; pointer bits preserved', uses=['PtrLock_is_locked', 'ptr_slow_lock'])
@@ -119,7 +123,7 @@ PLU('PtrLock_unlock_and_set', r'inline void unlock_and_set\(T\* val\)', 'void Pt
     '__CPROVER_requires(PL_FRESH(self) && g_held && !g_bad_write && (self->_lock.v & 1) == 1 && ((uintptr_t)val & 1) == 0)\n__CPROVER_ensures(!g_held && g_rel_ok && !g_bad_write && g_lin_new == (uintptr_t)val)\n' + PASG,
     'unlock_and_set(v): holder publishes exactly v, unlocked, with release order', uses=['PtrLock_is_locked'])
 PLU('PtrLock_getValue', r'inline T\* getValue\(\) const', 'T* PtrLock_getValue(const struct PtrLock* self)',
-    '__CPROVER_requires(PL_FRESH(self))\n__CPROVER_ensures((uintptr_t)__CPROVER_return_value == (g_last_read & ~(uintptr_t)1))\n%s' % RD,
+    '__CPROVER_requires(PL_FRESH(self))\n__CPROVER_ensures((uintptr_t)__CPROVER_return_value == (g_last_read & ~(uintptr_t)1) && (g_held ==> self->_lock.v == __CPROVER_old(self->_lock.v)))\n%s' % RD,
     'getValue(): the pointer bits of the observed word; writes nothing')
 PLU('PtrLock_setValue', r'inline void setValue\(T\* val\)', 'void PtrLock_setValue(struct PtrLock* self, T* val)',
     '__CPROVER_requires(PL_FRESH(self) && g_held && !g_bad_write && (self->_lock.v & 1) == 1 && ((uintptr_t)val & 1) == 0)\n__CPROVER_ensures(g_held && !g_bad_write && g_lin_new == ((uintptr_t)val | 1))\n' + PASG,
@@ -127,3 +131,98 @@ PLU('PtrLock_setValue', r'inline void setValue\(T\* val\)', 'void PtrLock_setVal
 PLU('PtrLock_CAS', r'inline bool CAS\(T\* oldval, T\* newval\)', 'bool PtrLock_CAS(struct PtrLock* self, T* oldval, T* newval)',
     '__CPROVER_requires(PL_FRESH(self) && !g_held && !g_bad_write && g_lin_count == 0 && ((uintptr_t)oldval & 1) == 0 && ((uintptr_t)newval & 1) == 0)\n__CPROVER_ensures(!g_held && !g_bad_write && (__CPROVER_return_value ==> (g_lin_count == 1 && g_lin_old == (uintptr_t)oldval && g_lin_new == (uintptr_t)newval)) && (!__CPROVER_return_value ==> g_lin_count == 0))\n' + PASG,
     'CAS(old,new): can only succeed on a word it observed UNLOCKED and equal to old (the lock bit prevents success), then installs new; a failed CAS writes nothing')
+
+# ---------------------------------------------------------------------------
+# PaddedLock<true>: forwards to SimpleLock
+PADP = 'struct PaddedLock { struct SimpleLock Lock; };\n'
+for nm, ret, post, req in [('lock', 'void', 'g_held && g_acq_ok && !g_bad_write', '!g_held && !g_bad_write'),
+                           ('try_lock', 'bool', '__CPROVER_return_value == g_held && (g_held ==> g_acq_ok) && !g_bad_write', '!g_held && !g_bad_write && g_lin_count == 0'),
+                           ('unlock', 'void', '!g_held && g_rel_ok && !g_bad_write', 'g_held && !g_bad_write && (self->Lock._lock.v & 1) == 1')]:
+    UNITS.append(Unit(
+        name='PaddedLock_' + nm, src=PAD_H, within=r'class PaddedLock<true>', anchor=r'%s %s\(\) const' % (ret, nm),
+        proto='%s PaddedLock_%s(const struct PaddedLock* self)' % (ret, nm),
+        contract='__CPROVER_requires(__CPROVER_is_fresh(self, sizeof(*self)) && self->Lock._lock.v <= GV_WIDTH_MASK && %s)\n__CPROVER_ensures(%s)\n__CPROVER_assigns(self->Lock._lock.v, %s)' % (req, post, GHOSTS),
+        prelude=[SLP, PADP], uses=['SimpleLock_' + nm],
+        lower=[rx(r'Lock\.get\(\)\.%s\(\)' % nm, 'SimpleLock_%s(&self->Lock)' % nm, 1, 1)], no_flags=['--conversion-check'],
+        says='PaddedLock<true>::%s forwards to the SimpleLock it pads (verified against SimpleLock\'s contract)' % nm))
+
+# ---------------------------------------------------------------------------
+# ThreadPool::per_signal: the fork edge of a parallel region (fast mode).
+TP_H = 'libgalois/include/galois/substrate/ThreadPool.h'
+PSP = '''
+#define GV_RELY_NONE
+#include "gv_atomic.h"
+struct per_signal { gv_atomic done; gv_atomic fastRelease; };
+static inline void asmPause(void) {}
+static inline void gv_mutex_cv_path(void) {}   /* std::mutex / std::condition_variable path: libstdc++, not decided */
+'''
+PS_LOWER = MO + [rx(r'(?<![\w.>])done\s*=\s*0;', 'gv_store(&self->done, 0, memory_order_seq_cst);', 0),
+                 rx(r'(?<![\w.>])fastRelease\s*=\s*(\d);', r'gv_store(&self->fastRelease, \1, memory_order_seq_cst);', 0),
+                 rx(r'(?<![\w.>])fastRelease\.load\(', 'gv_load(&self->fastRelease, ', 0),
+                 rx(r'std::lock_guard<std::mutex> lg\(m\);', '', 0), rx(r'cv\.notify_one\(\);', 'gv_mutex_cv_path();', 0),
+                 rx(r'std::unique_lock<std::mutex> lg\(m\);', '', 0), rx(r'cv\.wait\(lg, \[=\] \{ return !done; \}\);', 'gv_mutex_cv_path();', 0)]
+PS_ASG = '__CPROVER_assigns(self->done.v, self->fastRelease.v, g_lin_count, g_lin_old, g_lin_new, g_last_read, g_last_load_order, g_last_write_order)'
+UNITS.append(Unit(
+    name='per_signal_wakeup', src=TP_H, within=r'struct per_signal\b', anchor=r'void wakeup\(bool fastmode\)',
+    proto='void per_signal_wakeup(struct per_signal* self, bool fastmode)',
+    contract='__CPROVER_requires(__CPROVER_is_fresh(self, sizeof(*self)))\n__CPROVER_ensures(fastmode ==> (g_lin_new == 1 && gv_is_rel(g_last_write_order)))\n' + PS_ASG,
+    prelude=[PSP], lower=PS_LOWER, no_flags=['--conversion-check'],
+    says='fork edge, releasing side: the master publishes the region by a store of 1 to the worker\'s flag with an order >= release (after clearing done)',
+    trusted=['mutex/condition_variable (non-fast) path is libstdc++: not decided']))
+UNITS.append(Unit(
+    name='per_signal_wait', src=TP_H, within=r'struct per_signal\b', anchor=r'void wait\(bool fastmode\)',
+    proto='void per_signal_wait(struct per_signal* self, bool fastmode)',
+    contract='__CPROVER_requires(__CPROVER_is_fresh(self, sizeof(*self)))\n__CPROVER_ensures(fastmode ==> (gv_is_acq(g_last_load_order) && g_last_read != 0))\n' + PS_ASG,
+    prelude=[PSP], lower=PS_LOWER, no_flags=['--conversion-check'],
+    loops={1: PS_ASG.replace('__CPROVER_assigns(', '__CPROVER_assigns(').rstrip() + '\n__CPROVER_loop_invariant(1)'},
+    says='fork edge, acquiring side: the load with which the worker OBSERVES the released flag asks for an order >= acquire, so the master\'s writes before wakeup() (work function, thread range) happen-before the worker\'s reads after wait() in the C++ model',
+    trusted=['mutex/condition_variable (non-fast) path is libstdc++: not decided']))
+
+# ---------------------------------------------------------------------------
+# ThreadRWlock: one padded lock per thread; readers take their own, a writer
+# takes all of them in ascending order.  Lock-set view: ghost bit per lock
+# (thread count n <= 16 as a configuration bound); the per-lock operations are
+# replaced by an abstract contract that is the lock-set image of the proved
+# SimpleLock/PaddedLock contracts (lock: not held before, held after; unlock:
+# held before, not held after).
+RWP = '''
+#define GV_MAXT 16u
+struct RW { bool held[GV_MAXT]; unsigned n; };
+unsigned g_tid;
+static inline void rw_lock(struct RW* r, unsigned i)
+{ __CPROVER_assert(i < r->n, "thread id in range"); __CPROVER_assert(!r->held[i], "lock() on a lock this thread does not hold yet (no self-deadlock)"); r->held[i] = 1; }
+static inline void rw_unlock(struct RW* r, unsigned i)
+{ __CPROVER_assert(i < r->n, "thread id in range"); __CPROVER_assert(r->held[i], "unlock() only by the holder"); r->held[i] = 0; }
+#define RW_OK(r) (__CPROVER_is_fresh(r, sizeof(*(r))) && (r)->n >= 1 && (r)->n <= GV_MAXT && g_tid < (r)->n)
+'''
+RW_LOWER = [rx(r'locks\.getLocal\(\)->lock\(\)', 'rw_lock(self, g_tid)', 0), rx(r'locks\.getLocal\(\)->unlock\(\)', 'rw_unlock(self, g_tid)', 0),
+            rx(r'locks\.getRemote\(i\)->lock\(\)', 'rw_lock(self, i)', 0), rx(r'locks\.getRemote\(i\)->unlock\(\)', 'rw_unlock(self, i)', 0),
+            rx(r'locks\.size\(\)', 'self->n', 0)]
+NONE = '__CPROVER_forall { unsigned k_; (k_ < GV_MAXT) ==> (k_ < self->n ==> !self->held[k_]) }'
+ALL = '__CPROVER_forall { unsigned k_; (k_ < GV_MAXT) ==> (k_ < self->n ==> self->held[k_]) }'
+for nm, pre, post, loop in [
+        ('readLock', NONE, 'self->held[g_tid] && __CPROVER_forall { unsigned k_; (k_ < GV_MAXT) ==> ((k_ < self->n && k_ != g_tid) ==> !self->held[k_]) }', None),
+        ('readUnlock', 'self->held[g_tid] && __CPROVER_forall { unsigned k_; (k_ < GV_MAXT) ==> ((k_ < self->n && k_ != g_tid) ==> !self->held[k_]) }', NONE, None),
+        ('writeLock', NONE, ALL, '__CPROVER_forall { unsigned a_; (a_ < GV_MAXT) ==> (a_ < self->n ==> (self->held[a_] == (a_ < i))) }'),
+        ('writeUnlock', ALL, NONE, '__CPROVER_forall { unsigned a_; (a_ < GV_MAXT) ==> (a_ < self->n ==> (self->held[a_] == (a_ >= i))) }')]:
+    UNITS.append(Unit(
+        name='ThreadRWlock_' + nm, src=RW_H, within=r'class ThreadRWlock\b', anchor=r'void %s\(\)' % nm, proto='void ThreadRWlock_%s(struct RW* self)' % nm,
+        contract='__CPROVER_requires(RW_OK(self) && %s)\n__CPROVER_ensures(%s)\n__CPROVER_assigns(__CPROVER_object_whole(self))' % (pre, post),
+        prelude=[RWP], lower=RW_LOWER, ghost_prefix='const unsigned n0 = self->n;' if loop else '', fallback_unwind=18,
+        loops={1: '__CPROVER_assigns(i, __CPROVER_object_whole(self))\n__CPROVER_loop_invariant(i <= self->n && self->n == n0 && n0 <= GV_MAXT && %s)\n__CPROVER_decreases(n0 - i)' % loop} if loop else {},
+        inst='thread count <= 16 (configuration bound)',
+        says={'readLock': 'a reader takes exactly its own thread\'s lock', 'readUnlock': 'a reader releases exactly its own lock',
+              'writeLock': 'a writer takes EVERY thread\'s lock, in ascending order (a consistent order: two writers cannot deadlock), so it excludes every reader and every other writer',
+              'writeUnlock': 'a writer releases every lock it took'}[nm],
+        trusted=['lock-set abstraction rw_lock/rw_unlock = image of the proved PaddedLock/SimpleLock contracts']))
+
+EXPLANATION = ('Every operation of SimpleLock, PtrLock (ptr_slow_lock: bounded), PaddedLock<true>, ThreadRWlock and the fast-mode fork signal of the thread pool is extracted from /repo, '
+               'lowered to C and verified thread-modularly: before each atomic step the environment may rewrite the lock word (never while this thread holds the lock); ghost state records who '
+               'holds the lock and which memory order each step requested.  Proved per operation: the bit is taken only by an RMW that observed it clear with order >= acquire, cleared only by '
+               'the holder with order >= release, payload bits changed only by the holder or by an RMW on a word observed unlocked, failed attempts change nothing.')
+NOT_DECIDED = ('fairness / "eventually admits every requester" (spin locks have none); executions of the full C++ memory model (the claim is the per-operation order discipline that makes each '
+               'promised edge a release/acquire pair); std::mutex/condition_variable paths; barrier arrival->departure and worklist push->pop edges beyond the locks they use; PtrLock::stealing_CAS (documented as dangerous).')
+ASSUMPTIONS = ['interference stub stubs/gv_atomic.h with GV_RELY_LOCK: atomic steps are indivisible; while this thread holds the lock nobody else writes the word',
+               'mutual exclusion from the per-operation facts is the standard one-word argument (hand-made step, stated in the module docstring)',
+               'a release store read by an acquire RMW/load is a happens-before edge (C++ [intro.races]); memory orders are recorded, not interpreted',
+               'ThreadRWlock: per-thread locks as a lock-set (<= 16 threads)']
